@@ -5,6 +5,7 @@ import (
 	"encoding/json"
 	"errors"
 	"fmt"
+	"io"
 	"os"
 	"sync"
 	"time"
@@ -124,8 +125,8 @@ func B(p []byte) []int {
 
 // errHarnessWriter / errHarnessReader are the harness' own fault values.
 var (
-	errHarnessWriter = errors.New("verif: injected writer fault")
-	errHarnessReader = errors.New("verif: injected reader fault")
+	errHarnessWriter  = errors.New("verif: injected writer fault")
+	errHarnessReader  = errors.New("verif: injected reader fault")
 	errHarnessReader2 = errors.New("verif: injected reader fault 2")
 )
 
@@ -138,6 +139,9 @@ func decErr(err error) string {
 	case err == lz.ErrFullBuffer:
 		return "full"
 	case err == errHarnessWriter:
+		return "writer"
+	case err == io.ErrShortWrite:
+		// what the scripted writer returns for bufio-style faults
 		return "writer"
 	default:
 		return "other:" + err.Error()
